@@ -49,6 +49,12 @@ func specWordCode(b byte) bool {
 //@   ensures[C11] identifiers-are-not-reserved-words-and-symbols-are-what-they-spell: forall(k, 0, len(result0) - 1, (result0[k].tokenType == IDENTIFIER ==> specKeywordType(result0[k].value) == UNKNOWN) && (specIsSymbolType(result0[k].tokenType) ==> specSymbolType(result0[k].value) == result0[k].tokenType))
 //@   ensures[C11,C12] no-blank-or-comment-token: forall(k, 0, len(result0) - 1, result0[k].tokenType != SPACE && result0[k].tokenType != COMMENT && result0[k].tokenType != UNKNOWN)
 
+// An operand can end in an identifier, a literal, a closing round bracket (call, group) or a
+// closing square bracket (subscript): only after one of these is a minus sign the subtraction
+// operator rather than the sign of a number.
+//@ func endsOperand
+//@   ensures[C01,C11,C12] exactly-after-a-token-that-can-end-an-operand: result == (len(tokens) > 0 && (tokens[len(tokens)-1].tokenType == IDENTIFIER || tokens[len(tokens)-1].tokenType == NUMBER_LITERAL || tokens[len(tokens)-1].tokenType == STRING_LITERAL || tokens[len(tokens)-1].tokenType == BOOL_LITERAL || tokens[len(tokens)-1].tokenType == NIL_LITERAL || tokens[len(tokens)-1].tokenType == CLOSING_ROUND_BRACKET || tokens[len(tokens)-1].tokenType == CLOSING_SQUARE_BRACKET))
+
 // ----------------------------------------------------------------------------
 // The token grammar's two tables, written from the README's list of operators, separators and
 // reserved words (not from the tables in lexer.go): the kind of token each spelling denotes.
